@@ -746,6 +746,8 @@ func (x Expr) set(data, value any, fun string, one bool) error {
 					}
 				}
 			} else {
+				// A sibling that shares the marker has to be expanded as well.
+				stack[len(stack)-1] = di &^ descentFlag
 				stack = append(stack, prev)
 			}
 		case Union:
